@@ -11,6 +11,7 @@ from ..oracle import caching_flags_off
 from ..oracle import (ACCEPT, REJECT, EITHER, slack3, slack_tripped_int, validsig,
                       ed_verify, pubkey_of_seed, as_key_arg, PREFIXES, DECORATIONS, SUFFIXES,
                       LOCK_FORMS, LIMITS, in_form, code_of, WRAPS, wrap_lock, malleate, pick_bit,
+                      gen_tx_change, change_tx,
                       ARG_STYLES, styled_flags, styled_sigfields, maybe_twice)
 
 PID = 'C14'
@@ -55,7 +56,8 @@ REQUIRED_PROBES = ['t==begin', 't==end-1', 't==end'] + \
      'honest_accept_single', 'honest_accept_chain', 'threshold_per_call',
      'second_hierarchy', 'foreign_witness_verified_under_own_root_first',
      'default_timestamp', 'crafted_witness', 'witness_with_code', 'witness_ending_in_return',
-     'crafted_marker', 'chain_len_long', 'clock_read_failed', 'malleated_signature', 'lock_form_bytes', 'lock_form_resrc', 'lock_form_redec', 'explicit_limits'] + \
+     'crafted_marker', 'chain_len_long', 'clock_read_failed', 'malleated_signature',
+     'transaction_changed_after_signing', 'lock_form_bytes', 'lock_form_resrc', 'lock_form_redec', 'explicit_limits'] + \
     ['lock_wrapped_' + x for x in sorted(set(WRAPS) - {'none'})]
 NAMES = ['K', 'Kp'] + ['D%d' % i for i in range(1, 7)] + ['F%d' % i for i in range(1, 7)]
 FIELD_RANGE = {'key': (0, 32), 'begin': (32, 36), 'end': (36, 40), 'can': (40, 41),
@@ -149,6 +151,7 @@ def gen_step(rng, cell, clocks, vname, at_us, thr, fault_free):
             'cert_as': rng.choice(['bytes', 'object']), 'decor': rng.choice(DECORATIONS), 'suffix': rng.choice(SUFFIXES),
             'form': rng.choice(LOCK_FORMS), 'limits': rng.below(len(LIMITS)),
             'wrap': rng.choice(WRAPS), 'style': rng.choice(ARG_STYLES),
+            'tx_change': gen_tx_change(rng) if rng.chance(1, 10) else None,
             'twice': rng.choice(['', '', '', 'build', 'validate', 'build+validate']),
             't': t, 'thr': thr, 'chain': chain, 'signer': dn(pre, ln),
             'allowed': rng.choice(['00', '00', '01', '03', '80', 'c1']), 'flag': '00',
@@ -449,6 +452,11 @@ def execute(plan, run):
             w = T.Script('# witness + return #', w.bytes + T.compile_script(step['suffix']))
             items = items + ([b'\xff'] if step['suffix'].startswith('true') else
                              [b'\x00'] if step['suffix'].startswith('false') else [])
+        if step.get('tx_change'):
+            # the validator's transaction differs from the one the delegate signed
+            run.probe('transaction_changed_after_signing')
+            sf = change_tx(sf, step['tx_change'])
+            sf_arg = styled_sigfields(sf, style)
         cache_in = dict(sf_arg) if step.get('default_t') else {**sf_arg, 'timestamp': step['t']}
         lockf = real('lock in form ' + step.get('form', 'object'), in_form, lock,
                      step.get('form', 'object'))
@@ -524,6 +532,7 @@ def execute(plan, run):
                           'witness': step['witness'], 'signer': step['signer']})
         # who-level oracle for honest attempts: completeness of the builders
         honest = (not atk and not step.get('suffix') and not clock_failed and
+                  not step.get('tx_change') and
                   step['witness'] == step['lock'] and
                   step['signer'] == dn(pre, ln) and
                   all(c['can'] for c in step['chain'][:-1]) and
@@ -540,7 +549,7 @@ def execute(plan, run):
                       step=i, detail={'step': step, 'reads': reads})
             if obs == ACCEPT:
                 run.probe('honest_accept_' + step['lock'])
-        elif obs == ACCEPT and not atk and not step.get('suffix'):
+        elif obs == ACCEPT and not atk and not step.get('suffix') and not step.get('tx_change'):
             # anything accepted without transport tampering must be an honest chain
             # whose leases all contain t (F3 is the recorded exception, via `lease`)
             inwin = all(c['begin'] <= t < c['end'] for c in step['chain'])
